@@ -114,18 +114,20 @@ _CLASSES = {}
 
 
 def tunable_mirror_class():
-    """lossless tunable reflector: S(t) = [[r, i*tau], [i*tau, r]], r = 2t/(1+t^2), tau = (1-t^2)/(1+t^2)"""
+    """lossless tunable reflector: S(t, g) = [[r, i*tau*e], [i*tau*conj(e), r]], r = 2t/(1+t^2), tau = (1-t^2)/(1+t^2),
+    e = ((1-g^2) + 2ig)/(1+g^2): reciprocal exactly when g = 0"""
     if "tm" in _CLASSES:
         return _CLASSES["tm"]
     L = lk()
     from copy import deepcopy
 
     class TunableMirror(L.Model):
-        def __init__(self, pin_names, pname="t", default=0.0):
+        def __init__(self, pin_names, pname="t", default=0.0, gname="g"):
             self.pin_dic = {L.Pin(pin_names[0]): 0, L.Pin(pin_names[1]): 1}
             self.N = 2
             self.pname = pname
-            self.param_dic = {pname: default}
+            self.gname = gname
+            self.param_dic = {pname: default, gname: 0.0}
             self.default_params = deepcopy(self.param_dic)
             self.S = np.identity(2, complex)
             self.update_pins()
@@ -134,7 +136,9 @@ def tunable_mirror_class():
             t = self.param_dic[self.pname]
             r = 2 * t / (1 + t * t)
             tau = (1 - t * t) / (1 + t * t)
-            return np.array([[r, 1j * tau], [1j * tau, r]], complex)
+            g = self.param_dic[self.gname]
+            e = ((1 - g * g) + 2j * g) / (1 + g * g)
+            return np.array([[r, 1j * tau * e], [1j * tau * np.conj(e), r]], complex)
 
         def __str__(self):
             return f"TunableMirror (id={id(self)})"
